@@ -7,8 +7,10 @@ What is modelled (line by line from the code):
 * `IterativeParser._process`: the IR is compiled to helper rules — one control-flow nonterminal
   `<__id>` per alternative / concatenation / repetition node (`NT.ctl n`), implicit nonterminals
   `<*c*>` (`NT.impl n j`): the right-recursive rule of `*` / `+`, and for `{min,max}` the body wrapper
-  (`j = 0`), the nested chain (`1 ≤ j ≤ max-min`) and the `min`-fold head (`j = max-min+1`); open
-  upper bounds use the cap `nodes.MAX_REPETITIONS`.  Helper nonterminals are *named by the IR node
+  (`j = 0`), the nested chain (`1 ≤ j ≤ max-min`) and the `min`-fold head (`j = max-min+1`); an open
+  upper bound `{n,}` is `n` iterations followed by a right-recursive tail (body wrapper `j = 0`, tail
+  `j = 1`, head `j = 2`) — before /repo b48dd899 it was capped by `nodes.MAX_REPETITIONS` (kept as
+  the variant `cap = some n`).  Helper nonterminals are *named by the IR node
   they belong to*, so the rule table is a function of the name (`rulesOf`) and no counter has to be
   threaded; the correspondence check maps the real `<*c*>` numbers onto `(node id, j)` by structure.
 * `ParseState` = core item (`nonterminal`, `symbols`, `_dot`, `position`) + `children`.
@@ -16,6 +18,10 @@ What is modelled (line by line from the code):
   `add` (the admission test is the policy parameter, see `Policy`), `replace`.
 * `_consume`: columns in order, every column a *live* worklist; per state `complete` / `predict` /
   scan; `complete` iterates the *live* `dot_map` list of the origin column (a frame of the machine);
+  `predict` ends by completing every finished empty derivation of the predicted symbol that the column
+  already holds (snapshot `M.pending`; /repo 1d73281f);
+  text / bytes / regex terminals are only scanned on a byte boundary (a33087ac), a code point above 255
+  has no bits (1ef12755), an empty regex match is a match (179bde08);
   8 columns per input cell; a scan whose target column lies beyond the table raises `IndexError`;
   trees are yielded from finished `<*start*>` states of the last column.
 * `place_repetition_shortcut` at the end of every column.
@@ -26,6 +32,10 @@ What is modelled (line by line from the code):
 Not modelled: INCOMPLETE (prefix) mode and incomplete states (they are inert in a one-shot parse:
 they only live in the last column and never advance), computed repetitions (`<*ctx_*>`/`<*tmp_*>`),
 `starter_bit`, generators.  Regexes: one greedy length per start position, an oracle (`Input.rlen`).
+
+The five repairs above and the admission policy are the fields of `Variant`; `harness/translate_earley.py`
+reads from the source which variant the code is (`Generated/Earley.lean`), `Variant.now` is the code as it
+is today, `Variant.old` the code before the repairs (only kept for the labelled OLD witnesses).
 -/
 import Model.IR
 namespace FV
@@ -129,12 +139,16 @@ def symOf : Node → ESym
   | .nt name s r => .n (.user name) s r
   | n => .plain (.ctl n)
 
-/-- `node.max`: open upper bounds are capped by `nodes.MAX_REPETITIONS` -/
-def hiOf (cap : Nat) (mx : Option Nat) : Nat := mx.getD cap
+/-- `node.max` of the capped compilation: open upper bounds are capped by `nodes.MAX_REPETITIONS`
+    (`cap = some n`, the code before b48dd899); irrelevant when `openTail` -/
+def hiOf (cap : Option Nat) (mx : Option Nat) : Nat := mx.getD (cap.getD 0)
+
+/-- `node.internal_max is None` and the source has the tail branch: `{n,}` = n iterations + tail -/
+def openTail (cap : Option Nat) (mx : Option Nat) : Bool := mx.isNone && cap.isNone
 
 /-- the alternatives of `<__id>` (`visitAlternative`, `visitConcatenation`, `visitRepetition`,
     `visitStar`, `visitPlus`, `visitOption`) -/
-def ctlRules (cap : Nat) : Node → List (List ESym)
+def ctlRules (cap : Option Nat) : Node → List (List ESym)
   | .term _ => []
   | .nt _ _ _ => []
   | .alt _ ns => ns.map (fun n => [symOf n])
@@ -143,17 +157,23 @@ def ctlRules (cap : Nat) : Node → List (List ESym)
   | .rep i .plus b mn mx => [[.plain (.impl (.rep i .plus b mn mx) 0)]]
   | .rep _ .opt b _ _ => [[], [symOf b]]
   | .rep i .braces b mn mx =>
-    [[.plain (.impl (.rep i .braces b mn mx) (hiOf cap mx - mn + 1))]]
+    if openTail cap mx then [[.plain (.impl (.rep i .braces b mn mx) 2)]]
+    else [[.plain (.impl (.rep i .braces b mn mx) (hiOf cap mx - mn + 1))]]
 
 /-- the alternatives of the implicit nonterminals of a repetition node -/
-def implRules (cap : Nat) : Node → Nat → List (List ESym)
+def implRules (cap : Option Nat) : Node → Nat → List (List ESym)
   | .rep i .star b mn mx, 0 => [[], [symOf b, .plain (.impl (.rep i .star b mn mx) 0)]]
   | .rep i .plus b mn mx, 0 => [[symOf b], [symOf b, .plain (.impl (.rep i .plus b mn mx) 0)]]
   | .rep i .braces b mn mx, j =>
     let me : Node := .rep i .braces b mn mx
     let d := hiOf cap mx - mn
     let w : ESym := .plain (.impl me 0)
-    if j = 0 then [[symOf b]]
+    if openTail cap mx then
+      (if j = 0 then [[symOf b]]
+       else if j = 1 then [[], [w, .plain (.impl me 1)]]
+       else if j = 2 then [List.replicate mn w ++ [.plain (.impl me 1)]]
+       else [])
+    else if j = 0 then [[symOf b]]
     else if j ≤ d then (if j = 1 then [[w]] else [[w], [w, .plain (.impl me (j - 1))]])
     else if j = d + 1 then
       List.replicate mn w :: (if d = 0 then [] else [List.replicate mn w ++ [.plain (.impl me d)]])
@@ -161,7 +181,7 @@ def implRules (cap : Nat) : Node → Nat → List (List ESym)
   | _, _ => []
 
 /-- `_rules` / `_implicit_rules` as a function of the nonterminal -/
-def rulesOf (G : Grammar) (cap : Nat) : NT → List (List ESym)
+def rulesOf (G : Grammar) (cap : Option Nat) : NT → List (List ESym)
   | .start => []
   | .user s =>
     match G.rule s with
@@ -183,33 +203,33 @@ def NT.beginner : NT → Bool
   | _ => false
 
 /-- the implicit nonterminals a repetition node owns -/
-def implsOf (cap : Nat) : Node → List NT
+def implsOf (cap : Option Nat) : Node → List NT
   | .rep i .star b mn mx => [.impl (.rep i .star b mn mx) 0]
   | .rep i .plus b mn mx => [.impl (.rep i .plus b mn mx) 0]
   | .rep i .braces b mn mx =>
-    (List.range (hiOf cap mx - mn + 2)).map (fun j => NT.impl (.rep i .braces b mn mx) j)
+    (List.range (if openTail cap mx then 3 else hiOf cap mx - mn + 2)).map (fun j => NT.impl (.rep i .braces b mn mx) j)
   | _ => []
 
 mutual
 /-- helper nonterminals introduced by a node and everything below it -/
-def subNTs (cap : Nat) : Node → List NT
+def subNTs (cap : Option Nat) : Node → List NT
   | .term _ => []
   | .nt _ _ _ => []
   | .alt i ns => .ctl (.alt i ns) :: subNTsL cap ns
   | .cat i ns => .ctl (.cat i ns) :: subNTsL cap ns
   | .rep i k b mn mx => .ctl (.rep i k b mn mx) :: (implsOf cap (.rep i k b mn mx) ++ subNTs cap b)
-def subNTsL (cap : Nat) : List Node → List NT
+def subNTsL (cap : Option Nat) : List Node → List NT
   | [] => []
   | n :: ns => subNTs cap n ++ subNTsL cap ns
 end
 
-def allNTs (G : Grammar) (cap : Nat) : List NT :=
+def allNTs (G : Grammar) (cap : Option Nat) : List NT :=
   G.rules.flatMap (fun p => .user p.1 :: subNTs cap p.2)
 
 abbrev CRule := NT × List ESym
 
 /-- the whole rule table as a list (what `_process` leaves in `_rules` ∪ `_implicit_rules`) -/
-def compile (G : Grammar) (cap : Nat) : List CRule :=
+def compile (G : Grammar) (cap : Option Nat) : List CRule :=
   (allNTs G cap).flatMap (fun x => (rulesOf G cap x).map (fun rhs => (x, rhs)))
 
 /-! ### parser trees, items, states -/
@@ -319,6 +339,8 @@ structure Cfg where
   policy : Policy
   /-- requested start symbol -/
   start : String
+  /-- `predict` ends by completing the finished empty derivations of the predicted symbol (1d73281f) -/
+  predDone : Bool := true
 
 structure M where
   cols : List Col
@@ -328,6 +350,8 @@ structure M where
   idx : Nat := 0
   /-- an active `complete(state, …)` call: the finished state and the index into the live list -/
   frame : Option (St × Nat) := none
+  /-- the `complete(done, …)` calls the running `predict` still has to make (the snapshot list of its last loop) -/
+  pending : List St := []
   /-- trees yielded so far (children of finished `<*start*>` states in the last column) -/
   out : List PT := []
 
@@ -424,6 +448,11 @@ def startItem (start : String) : Item :=
 def M.init (c : Cfg) : M :=
   { cols := addAt c.policy (List.replicate c.ncols {}) 0 { item := startItem c.start, kids := [] } }
 
+/-- the snapshot `predict` takes after adding the alternatives of `x` to column `k`:
+    `[s for s in table[k].states if s.position == k and s.nonterminal == symbol and s.finished()]` -/
+def doneOf (col : Col) (k : Nat) (x : NT) : List St :=
+  col.states.filter (fun s => decide (s.item.origin = k) && decide (s.item.lhs = x) && s.item.finished)
+
 /-- one step of `_consume` -/
 def step (c : Cfg) (m : M) : Res :=
   if c.ncols ≤ m.k then .done m
@@ -437,6 +466,11 @@ def step (c : Cfg) (m : M) : Res :=
         | some s' => .next { m with cols := addAt c.policy m.cols m.k s', frame := some (t, j + 1) }
         | none => .next { m with frame := some (t, j + 1) }
     | none =>
+      match m.pending with
+      | t :: rest =>
+        -- the next `self.complete(done, table, k)` of the loop that ends `predict`
+        .next { m with pending := rest, frame := if cyclicAt c.policy m.k t then none else some (t, 0) }
+      | [] =>
       match (colAt m.cols m.k).states[m.idx]? with
       | none => .next { m with cols := shortcut m.cols m.k, k := m.k + 1, idx := 0 }
       | some s =>
@@ -451,7 +485,8 @@ def step (c : Cfg) (m : M) : Res :=
             let cols := (c.pred m.k x).foldl
               (fun cs rhs => addAt c.policy cs m.k
                 { item := { lhs := x, rhs := rhs, dot := 0, origin := m.k }, kids := [] }) m.cols
-            .next { m with cols := cols, idx := m.idx + 1 }
+            .next { m with cols := cols, idx := m.idx + 1,
+                           pending := if c.predDone then doneOf (colAt cols m.k) m.k x else [] }
           | some (.t term) =>
             match c.scan term m.k with
             | none => .next { m with idx := m.idx + 1 }
@@ -515,34 +550,71 @@ def startsWith : List Nat → List Nat → Bool
 def mkLeaf (isBytes : Bool) (xs : List Nat) : Leaf :=
   if isBytes then .bytes (xs.map mkByte) else .text xs
 
-/-- `scan_bit` / `scan_bytes` / `scan_regex` for a complete match -/
-def scanImpl (inp : Input) (t : Term) (k : Nat) : Option (Nat × Leaf) :=
+/-- which of the repairs of the parser the source carries, and its admission policy; read from /repo by
+    `harness/translate_earley.py` on every run (`Generated/Earley.lean`) -/
+structure Variant where
+  policy : Policy
+  /-- `none`: an open-ended `{n,}` is `n` iterations + a right-recursive tail (b48dd899);
+      `some cap`: it is compiled as `{n,cap}` (before) -/
+  cap : Option Nat
+  /-- `predict` completes the finished empty derivations of the predicted symbol (1d73281f) -/
+  predDone : Bool
+  /-- text / bytes / regex terminals are only scanned on a byte boundary (a33087ac) -/
+  aligned : Bool
+  /-- a cell above 255 (a `str` input) has no bits (1ef12755) -/
+  wideGuard : Bool
+  /-- a regex match of length 0 is a match (179bde08) -/
+  emptyRegex : Bool
+  deriving DecidableEq
+
+/-- the parser as it is now -/
+def Variant.now : Variant :=
+  { policy := .acyclic, cap := none, predDone := true, aligned := true, wideGuard := true, emptyRegex := true }
+
+/-- the parser before the repairs 73e5ffe3 … 1ef12755 (OLD; only for the labelled witnesses) -/
+def Variant.old (cap : Nat) : Variant :=
+  { policy := .impl, cap := some cap, predDone := false, aligned := false, wideGuard := false, emptyRegex := false }
+
+/-- `scan_bit` / `scan_bytes` / `scan_regex` for a complete match, with the guards of `_consume` -/
+def scanV (v : Variant) (inp : Input) (t : Term) (k : Nat) : Option (Nat × Leaf) :=
   let w := k / 8
   match t with
   | .lit (.bit b) =>
     match inp.cells[w]? with
     | none => none
-    | some cell => if ((cell >>> (7 - k % 8)) % 2 == 1) == b then some (k + 1, .bit b) else none
+    | some cell =>
+      if v.wideGuard && decide (255 < cell) then none       -- `if byte > 0xFF: return False`
+      else if ((cell >>> (7 - k % 8)) % 2 == 1) == b then some (k + 1, .bit b) else none
   | .lit (.text s) =>
+    -- `elif curr_table_idx % 8 != 0: match = False`
+    if v.aligned && !decide (k % 8 = 0) then none
     -- `Terminal.check`: text literal against `str`, or against latin-1 decoded `bytes`
-    if startsWith (inp.cells.drop w) s then some (k + 8 * s.length, mkLeaf inp.isBytes s) else none
+    else if startsWith (inp.cells.drop w) s then some (k + 8 * s.length, mkLeaf inp.isBytes s) else none
   | .lit (.bytes b) =>
     let s := b.map (·.val)
-    if startsWith (inp.cells.drop w) s then some (k + 8 * s.length, mkLeaf inp.isBytes s) else none
+    if v.aligned && !decide (k % 8 = 0) then none
+    else if startsWith (inp.cells.drop w) s then some (k + 8 * s.length, mkLeaf inp.isBytes s) else none
   | .regex id =>
-    match inp.rlen id w with
-    | none => none
-    | some 0 => none      -- `match_length <= prev_match_length`: an empty match counts as no match
-    | some l => some (k + 8 * l, mkLeaf inp.isBytes ((inp.cells.drop w).take l))
+    if v.aligned && !decide (k % 8 = 0) then none
+    else
+      match inp.rlen id w with
+      | none => none
+      | some l =>
+        -- before 179bde08 `match_length <= prev_match_length` (= 0) turned an empty match into no match
+        if !v.emptyRegex && decide (l = 0) then none
+        else some (k + 8 * l, mkLeaf inp.isBytes ((inp.cells.drop w).take l))
 
-/-- the machine for a grammar, a word and a prediction order -/
-def mkCfg (G : Grammar) (cap : Nat) (inp : Input) (start : String) (p : Policy)
+/-- the scanner of the code as it is now -/
+def scanImpl (inp : Input) : Term → Nat → Option (Nat × Leaf) := scanV Variant.now inp
+
+/-- the machine for a grammar, a word, a variant of the code and a prediction order -/
+def mkCfg (G : Grammar) (v : Variant) (inp : Input) (start : String)
     (pred : Nat → NT → List (List ESym)) : Cfg :=
-  { rules := compile G cap, pred := pred, scan := scanImpl inp, ncols := inp.ncols,
-    policy := p, start := start }
+  { rules := compile G v.cap, pred := pred, scan := scanV v inp, ncols := inp.ncols,
+    policy := v.policy, start := start, predDone := v.predDone }
 
 /-- default prediction order: the order of `rulesOf` -/
-def predDefault (G : Grammar) (cap : Nat) : Nat → NT → List (List ESym) := fun _ x => rulesOf G cap x
+def predDefault (G : Grammar) (cap : Option Nat) : Nat → NT → List (List ESym) := fun _ x => rulesOf G cap x
 
 /-! ### grammar classes -/
 
